@@ -14,6 +14,7 @@ import (
 	"github.com/ipld/go-ipld-prime"
 	"github.com/ipld/go-ipld-prime/codec/dagcbor"
 	"github.com/ipld/go-ipld-prime/datamodel"
+	"github.com/multiformats/go-multihash"
 
 	"github.com/ucan-wg/go-ucan/did"
 	"github.com/ucan-wg/go-ucan/pkg/args"
@@ -270,7 +271,7 @@ func invOptDefs() []optDef {
 		{"aud", []string{"none", "third", "sub"}},
 		{"cmd", tokCommandLabels},
 		{"args", argsLabels()},
-		{"prf", []string{"1", "0", "3"}},
+		{"prf", []string{"1", "0", "3", "odd"}},
 		{"exp", timeLabels},
 		{"iat", []string{"auto", "none", "whole", "subsec", "2^53", "zero", "epoch", "unix-1", "subsec-up", "zone+5h30", "zone-11h-subsec", "dst-repeat-west-1st", "dst-repeat-west-2nd", "dst-repeat-east-1st", "dst-repeat-east-2nd"}},
 		{"meta", metaLabels()},
@@ -581,6 +582,10 @@ func BuildToken(spec TokSpec) (any, *fixtures.Key, error) {
 		prf = []cid.Cid{}
 	case "3":
 		prf = []cid.Cid{cidPool[2], cidPool[0], cidPool[1]}
+	case "odd": // links of other CID flavours: the proof list of a token is a list of links, whatever they address
+		h512, _ := multihash.Sum([]byte("verif"), multihash.SHA2_512, -1)
+		ident, _ := multihash.Sum([]byte("verif"), multihash.IDENTITY, -1)
+		prf = []cid.Cid{cid.NewCidV1(cid.Raw, cidPool[0].Hash()), cid.NewCidV0(cidPool[1].Hash()), cidPool[2], cid.NewCidV1(cid.DagCBOR, h512), cid.NewCidV1(cid.DagCBOR, ident), cid.NewCidV1(cid.DagJSON, cidPool[3].Hash())}
 	}
 	if l := opt("exp", "absent"); l != "absent" {
 		if l == "in-past" {
